@@ -10,7 +10,7 @@ from common import Ctx
 ID = "C08"
 PROPS = ["props/C08.v"]
 EXTRACTS = ["Solver"]
-THEOREMS = ['C08_annotation_exact_for_current_requirers', 'C08_honesty_checker_sound', 'C08_stale_requirer_input_now_fails_honestly']
+THEOREMS = ['C08_refuted_abandoned_requirer_named', 'C08_no_abandoned_requirer_acyclic_plain', 'C08_no_abandoned_requirer_without_downgrades', 'C08_annotation_exact_for_current_requirers', 'C08_honesty_checker_sound', 'C08_stale_requirer_input_now_fails_honestly']
 MODES = ['calm', 'conflict', 'extras', 'extras', 'dense', 'cascade', 'srcextras', 'projects']
 RULE = ("universes (2-6 projects x 1-4 versions incl. pre/post/dev releases, requirements with the 7 operators, "
         "wildcards, extras, extra- and environment-markers, cycles, unreadable files, misnamed files), 1-3 input files, "
